@@ -179,7 +179,162 @@ func (w *world) fixedAckedHeadWedge() {
 	w.end()
 }
 
+// fixedReorderAcrossWrap (regression corpus, C01/C02/C12): the sender's sequence space starts three
+// segments below `base` (2^32: the numbers wrap to 0; 2^31: they cross the sign boundary of the
+// wrap-safe comparison), eight one-segment messages go out, each in its own datagram, and reach the
+// receiver in reverse order, the second half before the first, and interleaved; then a fair network.
+// Every message must be read in order and both backlogs must reach zero.
+func (w *world) fixedReorderAcrossWrap(base uint32, order []int) {
+	w.begin(cfg{}, 21)
+	w.stream = false
+	w.setShift(w.a, base-3, 5)
+	w.setShift(w.b, 5, base-3)
+	w.setNoDelay(w.a, 1, 10, 2, 1)
+	w.setNoDelay(w.b, 1, 10, 2, 1)
+	w.setMtu(w.a, 50)
+	w.setMtu(w.b, 50)
+	w.now = 0
+	for i := 0; i < 8; i++ {
+		w.send(w.a, w.payload(w.a, 26)) // mss = 26: one segment, one datagram each
+	}
+	w.flush(w.a, true)
+	pk := w.netAB
+	w.netAB = nil
+	for _, i := range order {
+		if i < len(pk) {
+			w.input(w.b, pk[i], true, false)
+		}
+	}
+	w.recvAll(w.b)
+	w.now = 10
+	w.flush(w.b, true)
+	w.drain()
+	w.end()
+}
+
+// fixedTimeoutAndEarlyInOneFlush (regression corpus, C04): one flush pass retransmits one segment
+// early (one duplicate ACK, nothing new to send) and another by timeout.  With congestion control on
+// the timeout wins: cwnd collapses to 1 and the data queued afterwards is not admitted while the
+// oldest outstanding segment is unacknowledged (admissionOracle judges the following flushes).
+func (w *world) fixedTimeoutAndEarlyInOneFlush() {
+	w.begin(cfg{}, 23)
+	w.stream = false
+	w.setNoDelay(w.a, 0, 10, 2, 0)
+	w.now = 0
+	// warm-up: cwnd grows to at least 3 (it starts at 0: the first flush admits nothing)
+	next := uint32(0)
+	for round := 0; round < 12; round++ {
+		if round < 8 {
+			w.send(w.a, []byte{byte(16 + round)})
+		}
+		w.flush(w.a, true)
+		sent := kcp.VerifKCPState(w.a.k).SndNxt
+		w.now += 20
+		for ; next != sent; next++ {
+			w.input(w.a, ackSeg(23, next, next+1, w.now-20, 32), true, false)
+		}
+		w.now += 10
+	}
+	w.netAB, w.netBA = nil, nil
+	d := kcp.VerifKCPState(w.a.k)
+	if d.SndNxt-d.SndUna != 0 || d.Cwnd < 3 {
+		w.o.Note(fmt.Sprintf("fixedTimeoutAndEarlyInOneFlush: warm-up left %d outstanding, cwnd %d", d.SndNxt-d.SndUna, d.Cwnd))
+	}
+	for i := 0; i < 3; i++ {
+		w.send(w.a, []byte{byte(0x70 + i)})
+	}
+	w.flush(w.a, true) // a, a+1, a+2 leave together
+	t0 := w.now
+	w.now += 20
+	w.input(w.a, ackSeg(23, next+1, next, t0, 32), true, false) // a+1 acknowledged alone: one dup-ack for a
+	w.now = t0 + 60000                                          // every timer is due
+	w.flush(w.a, true)                                          // a: early retransmit, a+2: timeout
+	w.send(w.a, []byte{0x7e})
+	w.send(w.a, []byte{0x7f})
+	w.now += 10
+	w.flush(w.a, true) // nothing new may leave: a is still unacknowledged
+	w.now += 10
+	w.flush(w.a, true)
+	w.netAB, w.netBA = nil, nil
+	w.end()
+}
+
+// fixedProbeAcrossClockWrap (regression corpus, C03): the zero-window probe deadline falls `before`
+// ms before the 32-bit clock passes `base` (0 = the wrap at 2^32, 2^31 = the sign boundary), the
+// sender's next flush comes after it, and the window update the reader triggers is lost.  The probe
+// must still fire: the transfer resumes and completes.
+func (w *world) fixedProbeAcrossClockWrap(base uint32, before uint32) {
+	w.begin(cfg{stall: true}, 27)
+	w.stream = false
+	w.setNoDelay(w.a, 1, 10, 2, 1)
+	w.setNoDelay(w.b, 1, 10, 2, 1)
+	w.setWnd(w.b, 32, 1)
+	take := func(q *[][]byte) [][]byte { o := *q; *q = nil; return o }
+	arm := base - before - 7000 // IKCP_PROBE_INIT = 7000: the flush that arms the probe timer
+	w.now = arm - 30
+	w.send(w.a, []byte{1})
+	w.flush(w.a, true)
+	for _, p := range take(&w.netAB) {
+		w.input(w.b, p, true, false) // the only slot of b's delivery queue is taken; the reader is away
+	}
+	w.now = arm - 20
+	w.flush(w.b, true)
+	for _, p := range take(&w.netBA) {
+		w.input(w.a, p, true, false) // ACK, una = 1, wnd = 0
+	}
+	w.send(w.a, []byte{2})
+	w.send(w.a, []byte{3})
+	w.now = arm
+	w.flush(w.a, true) // rmt_wnd = 0: probe timer armed for base - before
+	if d := kcp.VerifKCPState(w.a.k); d.RmtWnd != 0 || d.ProbeWait == 0 {
+		w.o.Note(fmt.Sprintf("fixedProbeAcrossClockWrap: not probing (rmt_wnd %d probe_wait %d)", d.RmtWnd, d.ProbeWait))
+	}
+	w.now = arm + 100
+	w.recvAll(w.b) // the reader is back
+	w.flush(w.b, true)
+	take(&w.netBA) // the window update is lost
+	w.now = base + 5
+	done := false
+	for i := 0; i < 40000 && !w.aborted && !done; i++ { // 400 s of fair network, 10 ms steps
+		w.flush(w.a, true)
+		for _, p := range take(&w.netAB) {
+			w.input(w.b, p, true, false)
+			w.recvAll(w.b)
+		}
+		w.flush(w.b, true)
+		for _, p := range take(&w.netBA) {
+			w.input(w.a, p, true, false)
+		}
+		d := kcp.VerifKCPState(w.a.k)
+		done = len(d.SndQueue)+len(d.SndBuf) == 0
+		w.now += 10
+	}
+	if !w.aborted {
+		if !done {
+			d := kcp.VerifKCPState(w.a.k)
+			w.viol("no-resume", fmt.Sprintf("probe deadline %d ms before the clock passes %d, next flush after it, window update lost: transfer did not complete within 400 s of fair network (backlog %d+%d, rmt_wnd %d, probe_wait %d, ts_probe %d, now %d)",
+				before, base, len(d.SndQueue), len(d.SndBuf), d.RmtWnd, d.ProbeWait, d.TsProbe, w.now))
+		} else {
+			w.finalOracle()
+		}
+	}
+	w.end()
+}
+
+func (w *world) fixedStall() {
+	for _, base := range []uint32{0, 1 << 31} {
+		w.fixedProbeAcrossClockWrap(base, 5)
+		w.fixedProbeAcrossClockWrap(base, 1)
+	}
+}
+
 func (w *world) fixedAll() {
+	w.fixedTimeoutAndEarlyInOneFlush()
+	for _, base := range []uint32{0, 1 << 31} { // 0 = 2^32
+		w.fixedReorderAcrossWrap(base, []int{7, 6, 5, 4, 3, 2, 1, 0})
+		w.fixedReorderAcrossWrap(base, []int{4, 5, 6, 7, 0, 1, 2, 3})
+		w.fixedReorderAcrossWrap(base, []int{3, 0, 6, 2, 7, 1, 5}) // 4 lost: retransmitted by the drain
+	}
 	w.fixedAckedHeadWedge()
 	w.fixedFragmentLimit()
 	w.fixedFastRecovery()
